@@ -322,7 +322,7 @@ class E2(Component):
 
 
 def e3_filter_configs(tier):
-    doms = [("ab", 5)] if tier == "quick" else [("ab", 7), ("abc", 4)]
+    doms = [("ab", 6)] if tier == "quick" else [("ab", 7), ("abc", 4)]
     for alphabet, L in doms:
         for q in (1, 2, 3):
             for padding in (True, False):
@@ -339,7 +339,7 @@ class E3(Component):
     rule = "every (filter, q, padding, threshold) over all ordered pairs of short strings"
 
     def bounds(self, tier):
-        return {"domains": [["ab", 5]] if tier == "quick" else [["ab", 7], ["abc", 4]],
+        return {"domains": [["ab", 6]] if tier == "quick" else [["ab", 7], ["abc", 4]],
                 "q": [1, 2, 3], "padding": [True, False], "threshold": [0, 1, 2, 3],
                 "filters": list(E_FILTERS)}
 
